@@ -146,6 +146,16 @@ LazyChoices(series, ms) ==
          IN  IF adders = {} \/ Cardinality(kept) < 2 THEN {{}}
              ELSE { L \in SUBSET kept : adders \ L # {} }
 
+(* nextBatch with lazy groups: every fetched series is checked against the lazy matchers and,     *)
+(* WHETHER OR NOT it has chunks in the requested range, recorded in expandedPostings, which is    *)
+(* stored in the expanded-postings cache (key: block + matchers, no range) after the last batch;  *)
+(* series without chunks in the range are skipped only afterwards.  Without lazy groups the cache *)
+(* is written right after the expansion, before any series is read.  So a cache entry never       *)
+(* depends on the range of the request that wrote it.  (Sanity: FALSE = "skip series without      *)
+(* chunks in the range first" makes PostingsMC fail on a narrow-then-wide history.)               *)
+LazyCacheIgnoresRange == TRUE
+StoredInCache(ids, inRangeIds, lazy) == IF lazy = {} \/ LazyCacheIgnoresRange THEN ids ELSE ids \cap inRangeIds
+
 (* decodeSeriesForTime: walk the chunk metas in order, stop at the first chunk that starts       *)
 (* after the range, keep those that end at or after its start                                    *)
 RECURSIVE ChunkWalk(_, _, _)
